@@ -8,11 +8,14 @@
      c19 repack <T> <hex>           -> ok:<hex> | err:<WireErrorToken> | panic     (`unpack_from_slice(buf).map(|v| v.pack())`)
      c19 status <T> <hex>           -> ok | err:<WireErrorToken> | panic           (`unpack_from_slice(buf).map(|_| ())`)
      c19 rt     <T> <V>             -> ok:<hex>|<answer of `unpack <T> <hex>`> | panic     (`pack()`, then `unpack_from_slice`)
+     c19 buflen <T>                 -> ok:<buffer().len()>:<PACKED_LEN> | unsized          (`EtherCrabWireSized` of impls.rs)
 
    Type grammar T (no spaces):
      u8 u16 u32 u64 i8 i16 i32 i64 f32 f64 u128 i128 bool unit x xN     primitives / () / a type the model does not know
                                                                         (xN: hand-written impl, only PACKED_LEN = N known)
      a(N,T)                                                             [T; N]
+     hv(N,T)                                                            heapless::Vec<T, N>   (value: [V,…] its elements)
+     hs(N)                                                              heapless::String<N>   (value: [b,…] its bytes)
      t(T,T,…)                                                           tuple
      e(R;V;V;…)    R = u8|…|i64|u128|i128|usize|isize|none              derived enum;  V = D{/A}{c|d}:
                    D = integer or `_` (implicit), /A = alternatives, c = #[wire(catch_all)], d = #[default]
@@ -24,6 +27,7 @@
      field) | [V,V,…] (struct fields / array elements / tuple components)
 -/
 import EcModel.Wire
+import EcModel.WireImpls
 import EcModel.Generated.Layouts
 import EcModel.Drv.Util
 
@@ -36,6 +40,8 @@ structure PT where
   codec : Codec
   sdecl : Option StructDecl := none
   edecl : Option EnumDecl := none
+  /-- hand-written `EtherCrabWireSized` impl of impls.rs, if the type has one -/
+  sized : Option SizedImpl := none
 
 def isIdentChar (c : Char) : Bool := c.isAlphanum || c == '_' || c == '@'
 
@@ -55,20 +61,20 @@ def takeInt (cs : List Char) : Option (Int × List Char) :=
 
 def primOf (name : String) : Option PT :=
   match name with
-  | "u8" => some { tok := .u8, codec := Codec.uN 1 }
-  | "u16" => some { tok := .u16, codec := Codec.uN 2 }
-  | "u32" => some { tok := .u32, codec := Codec.uN 4 }
-  | "u64" => some { tok := .u64, codec := Codec.uN 8 }
-  | "i8" => some { tok := .i8, codec := Codec.iN 1 }
-  | "i16" => some { tok := .i16, codec := Codec.iN 2 }
-  | "i32" => some { tok := .i32, codec := Codec.iN 4 }
-  | "i64" => some { tok := .i64, codec := Codec.iN 8 }
-  | "f32" => some { tok := .f32, codec := Codec.uN 4 }
-  | "f64" => some { tok := .f64, codec := Codec.uN 8 }
+  | "u8" => some { tok := .u8, codec := Codec.uN 1, sized := some (.prim 1) }
+  | "u16" => some { tok := .u16, codec := Codec.uN 2, sized := some (.prim 2) }
+  | "u32" => some { tok := .u32, codec := Codec.uN 4, sized := some (.prim 4) }
+  | "u64" => some { tok := .u64, codec := Codec.uN 8, sized := some (.prim 8) }
+  | "i8" => some { tok := .i8, codec := Codec.iN 1, sized := some (.prim 1) }
+  | "i16" => some { tok := .i16, codec := Codec.iN 2, sized := some (.prim 2) }
+  | "i32" => some { tok := .i32, codec := Codec.iN 4, sized := some (.prim 4) }
+  | "i64" => some { tok := .i64, codec := Codec.iN 8, sized := some (.prim 8) }
+  | "f32" => some { tok := .f32, codec := Codec.uN 4, sized := some (.prim 4) }
+  | "f64" => some { tok := .f64, codec := Codec.uN 8, sized := some (.prim 8) }
   | "u128" => some { tok := .u128, codec := Codec.unknown 16 }
   | "i128" => some { tok := .i128, codec := Codec.unknown 16 }
-  | "bool" => some { tok := .bool, codec := Codec.bool }
-  | "unit" => some { tok := .other, codec := Codec.unitTy }
+  | "bool" => some { tok := .bool, codec := Codec.bool, sized := some .bool }
+  | "unit" => some { tok := .other, codec := Codec.unitTy, sized := some .unit }
   | "x" => some { tok := .other, codec := Codec.unknown 0 }
   | _ =>
     -- `x<N>`: a type with a hand-written impl of which only PACKED_LEN = N is known
@@ -157,8 +163,27 @@ partial def parseT (cs : List Char) : Option (PT × List Char) :=
     match takeNat r 0 false with
     | some (n, ',' :: r') =>
       match parseT r' with
-      | some (el, ')' :: r'') => some ({ tok := .other, codec := Codec.array el.codec n }, r'')
+      | some (el, ')' :: r'') =>
+        -- `EtherCrabWireSized for [$ty; N]` exists for the types of `impl_primitive_wire_field!` only
+        let sz : Option SizedImpl := match el.sized with
+          | some (.prim size) => some (.array size n)
+          | _ => none
+        some ({ tok := .other, codec := Codec.array el.codec n, sized := sz }, r'')
       | _ => none
+    | _ => none
+  | "hv", '(' :: r =>
+    match takeNat r 0 false with
+    | some (n, ',' :: r') =>
+      match parseT r' with
+      | some (el, ')' :: r'') =>
+        -- `EtherCrabWireSized for heapless::Vec<T, N> where T: Into<u8>`: u8 and bool
+        let sz : Option SizedImpl := if el.tok == .u8 || el.tok == .bool then some (.hvec n) else none
+        some ({ tok := .other, codec := Codec.hvec el.codec n, sized := sz }, r'')
+      | _ => none
+    | _ => none
+  | "hs", '(' :: r =>
+    match takeNat r 0 false with
+    | some (n, ')' :: r') => some ({ tok := .other, codec := Codec.hstr n, sized := some (.hstr n) }, r')
     | _ => none
   | "t", '(' :: r =>
     match parseTs r [] with
@@ -337,6 +362,11 @@ def handle (args : List String) : String :=
     | some p, some v =>
       showOut (fun bs => "ok:" ++ hexOut bs ++ "|" ++ showOut (fun v => "ok:" ++ showVal v) (p.codec.dec bs)) (p.codec.pack v)
     | _, _ => "bad-case"
+  | ["buflen", t] =>
+    match parseTy t with
+    | some { sized := some sz, .. } => s!"ok:{sz.bufferLen}:{sz.packedLen}"
+    | some _ => "unsized"
+    | none => "bad-case"
   | ["status", t, buf] =>
     match parseTy t, parseHex buf with
     | some p, some buf => showOut (fun _ => "ok") (p.codec.dec buf)
